@@ -143,7 +143,8 @@ def sort_data_models(  # noqa: PLR0912
                 pass
 
         # sort on base_class dependency
-        while True:
+        # (acyclic inheritance reaches a fix-point within len(unresolved_references) passes)
+        for _ in range(len(unresolved_references) + 1):
             ordered_models: list[tuple[int, DataModel]] = []
             unresolved_reference_model_names = [m.path for m in unresolved_references]
             for model in unresolved_references:
@@ -166,6 +167,10 @@ def sort_data_models(  # noqa: PLR0912
             if sorted_unresolved_models == unresolved_references:
                 break
             unresolved_references = sorted_unresolved_models
+        else:
+            circular_classes = ", ".join(item.path for item in unresolved_references)
+            msg = f"A Parser can not resolve classes: circular base classes in [{circular_classes}]."
+            raise Exception(msg)  # noqa: TRY002
 
         # circular reference
         unsorted_data_model_names = set(unresolved_reference_model_names)
